@@ -212,7 +212,8 @@ var newUClientConnection = func(
 
 // uStreamReceiveWindows are the initial_max_stream_data_* values a QUICSpec advertises.
 // Config has a single InitialStreamReceiveWindow, a spec can advertise a different window
-// for each kind of stream. A negative value means the spec does not list the parameter.
+// for each kind of stream. A parameter the spec does not list is 0, its value on the wire
+// (a negative value would mean: keep the Config's window).
 // [UQUIC]
 type uStreamReceiveWindows struct {
 	bidiLocal, bidiRemote, uni int64
@@ -242,8 +243,10 @@ func (w *uStreamReceiveWindows) forStream(id protocol.StreamID, pers protocol.Pe
 // value. The peer only ever sees the spec's parameters; enforcing conf's values instead
 // closed connections with FLOW_CONTROL_ERROR, STREAM_LIMIT_ERROR or FRAME_ENCODING_ERROR
 // (or an early idle timeout) although the peer stayed within what it was told, and left
-// the peer without credit when the advertised window was the smaller one. Parameters the
-// spec does not list keep conf's values. [UQUIC]
+// the peer without credit when the advertised window was the smaller one. A window or
+// stream count the spec does not list is 0 on the wire (RFC 9000, 18.2: the default of an
+// absent parameter), so that is what is enforced; an unlisted max_idle_timeout keeps conf's
+// value. [UQUIC]
 func configForSpec(conf *Config, uSpec *QUICSpec) (*Config, *uStreamReceiveWindows) {
 	if uSpec.ClientHelloSpec == nil {
 		return conf, nil
@@ -260,7 +263,10 @@ func configForSpec(conf *Config, uSpec *QUICSpec) (*Config, *uStreamReceiveWindo
 		return conf, nil
 	}
 	conf = conf.Clone()
-	windows := &uStreamReceiveWindows{bidiLocal: -1, bidiRemote: -1, uni: -1}
+	windows := &uStreamReceiveWindows{}
+	conf.InitialConnectionReceiveWindow = 0
+	conf.MaxIncomingStreams = 0
+	conf.MaxIncomingUniStreams = 0
 	datagrams := false
 	for _, param := range params {
 		switch p := param.(type) {
